@@ -351,7 +351,8 @@ read_vertices_chunk(Decoder &reader)
     if (!validate_span(file_header_.n_verts, n_verts_read_, header.span))
         return;
 
-    auto pos_size = elem_size(header.vertex_encoding) * file_header_.vertex_dim;
+    // 64 bit: span.count * pos_size does not fit 32 bits for large counts
+    const uint64_t pos_size = static_cast<uint64_t>(elem_size(header.vertex_encoding)) * file_header_.vertex_dim;
     if (reader.remaining_bytes() != header.span.count  * pos_size) {
 #if 0
         std::cerr << "vert chunk size" << std::endl;
